@@ -304,7 +304,34 @@ def build_pps(p):
     from commonroad.common.solution import CostFunction, PlanningProblemSolution, VehicleModel, VehicleType
     from commonroad.scenario.trajectory import Trajectory
     tr = Trajectory(p["init"], [build_state(p["cls"], s) for s in p["states"]])
+    decoy = _decoy_trajectory(p)
+    if decoy is not None and p["id"] % 3 == 1:
+        # the solution is constructed with the OTHER admissible trajectory kind first and gets its real trajectory through the
+        # public setter (a solution is what it holds when it is written, however it got there)
+        pps = PlanningProblemSolution(p["id"], VehicleModel[p["model"]], VehicleType(p["vtype"]), CostFunction[p["cost"]], decoy)
+        pps.trajectory = tr
+        return pps
     return PlanningProblemSolution(p["id"], VehicleModel[p["model"]], VehicleType(p["vtype"]), CostFunction[p["cost"]], tr)
+
+
+def _decoy_trajectory(p):
+    """A one-state trajectory of the other kind that is admissible for the vehicle model (state trajectory <-> input vector)."""
+    import numpy as np
+    import commonroad.scenario.state as S
+    from commonroad.scenario.trajectory import Trajectory
+    ttype = None
+    for m, c, t in COMBOS:       # (state classes with extra attributes are matched with the vehicle model only by the constructor)
+        if m == p["model"] and c == p["cls"]:
+            ttype = t
+    if ttype is None or p["model"] == "KST":
+        return None
+    if ttype in ("Input", "PMInput"):
+        names = EXPECT[p["model"]]
+        kw = {n: (np.array([0.0, 0.0]) if n == "position" else 0 if n == "time_step" else 0.0) for n in names}
+        return Trajectory(0, [getattr(S, STATE_CLASS[p["model"]])(**kw)])
+    if p["model"] == "PM":
+        return Trajectory(0, [S.PMInputState(time_step=0, acceleration=0.0, acceleration_y=0.0)])
+    return Trajectory(0, [S.InputState(time_step=0, steering_angle_speed=0.0, acceleration=0.0)])
 
 
 def build_solution(case):
